@@ -406,6 +406,11 @@ Definition run_words (ws : list string) : string :=
   | ["hrrenc"; ver; rnd; sid; suite; comp; exts] =>
       show_opt (enc_hello_retry_request {| sh_version := z_of_string ver; sh_random := bytes_of_hex rnd; sh_session_id := hex_or_empty sid;
                                            sh_suite := z_of_string suite; sh_compression := z_of_string comp; sh_extensions := exts_of_string exts |})
+  | ["shdec"; ty; h] => match dec_server_hello_typed (z_of_string ty) (bytes_of_hex h) with
+                        | Some (c, r) => "OK " ++ string_of_Z (sh_version c) ++ " " ++ hex_of_bytes (sh_random c) ++ " " ++ dash_hex (sh_session_id c) ++ " "
+                                         ++ string_of_Z (sh_suite c) ++ " " ++ string_of_Z (sh_compression c) ++ " " ++ show_exts (sh_extensions c)
+                                         ++ " n=" ++ string_of_Z (zlen (bytes_of_hex h) - zlen r)
+                        | None => "NONE" end
   | ["certenc"; certs] => show_opt (enc_certificate (hexlist_of_string certs))
   | ["shdenc"] => show_opt enc_server_hello_done
   | ["certreqenc"; types; sa; cas] =>
